@@ -54,6 +54,7 @@ Definition sat_add16 (a b : Z) : Z := Z.min u16_max (a + b).
 Definition checked_sub16 (a b : Z) : option Z := if b <=? a then Some (a - b) else None.
 Definition try_from16 (w : Z) : option Z := if in_u16 w then Some w else None.
 Definition mul16 (a b : Z) : out Z := if in_u16 (a * b) then Ret (a * b) else Panic.
+Definition sat_mul16 (a b : Z) : Z := Z.min u16_max (a * b).
 (* i64::unsigned_abs : u64 -- total (|i64::MIN| = 2^63 fits u64) *)
 Definition unsigned_abs64 (a : Z) : Z := Z.abs a.
 
